@@ -80,8 +80,10 @@ package migrator
 //@ func (*Migrator).writeV2File(m, filePath, entries, swampName) (err)
 //@   property C23
 //@   overflow: assumed
-//@   modifies *
+//@   modifies ghost("stat_file")
 //@   loop 0 invariant[written_in_order] calls("FileWriter.WriteEntry") == old(calls("FileWriter.WriteEntry")) + rangeindex + 1 && calls("FileWriter.Close") == old(calls("FileWriter.Close")) && calls("Remove") == old(calls("Remove"))
+//@   loop 0 invariant[caller_memory_kept] entrymem()
+//@   loop 0 invariant[writer_private] writer != nil && fresh(writer) && writer.buffer != nil && fresh(writer.buffer) && writer.header != nil && fresh(writer.header) && writer.file != nil && fresh(writer.file) && (isnil(writer.buffer.entries) || fresh(writer.buffer.entries))
 //@   loop 0 invariant[all_written_so_far_succeeded] calls("FileWriter.WriteEntry") > old(calls("FileWriter.WriteEntry")) ==> isnil(lastret("FileWriter.WriteEntry"))
 //@   before FileWriter.WriteEntry [entries_written_in_order] arg1 == entries[calls("FileWriter.WriteEntry") - old(calls("FileWriter.WriteEntry"))] && arg0 == lastret("NewFileWriterWithName")
 //@   ensures[name_is_stored] calls("NewFileWriterWithName") == old(calls("NewFileWriterWithName")) + 1 && calledwith("NewFileWriterWithName", 0, filePath) && calledwith("NewFileWriterWithName", 2, swampName)
@@ -93,7 +95,7 @@ package migrator
 //@ func (*Migrator).verifyMigration(m, hydFilePath, originalEntries) (err)
 //@   property C23
 //@   overflow: assumed
-//@   modifies *
+//@   modifies ghost("stat_file")
 //@   loop 0 invariant[expected_so_far] expectedKeys != nil && forall i in 0..rangeindex+1: has(expectedKeys, originalEntries[i].Key)
 //@   loop 1 invariant[found_so_far] forall k in keys(expectedKeys): visited(k) ==> has(index, k)
 //@   ensures[verified_means_every_key_loads_back] err == nil ==> calls("NewFileReader") == old(calls("NewFileReader")) + 1 && calledwith("NewFileReader", 0, hydFilePath) && calls("FileReader.LoadIndex") == old(calls("FileReader.LoadIndex")) + 1 && isnil(lastret("FileReader.LoadIndex", 2)) && forall i in 0..len(originalEntries): has(lastret("FileReader.LoadIndex", 0), originalEntries[i].Key)
